@@ -119,7 +119,7 @@ def compiled(circ, backend, det, m, noise_sim=False):
 
 def same(a, b):
     if isinstance(a, np.ndarray):
-        return isinstance(b, np.ndarray) and a.shape == b.shape and np.allclose(a, b, atol=1e-8)
+        return isinstance(b, np.ndarray) and a.shape == b.shape and np.allclose(a, b, atol=1e-8, rtol=0)
     if isinstance(a, list):
         if not isinstance(b, list) or len(a) != len(b):
             return False
